@@ -337,6 +337,105 @@ def resolution_key_fields(repo: str):
     return [(f, status[f]) for f in fields]
 
 
+# ---------------------------------------------------------------------------
+# in-place mutation of objects that are not obviously fresh, and stores of such objects into
+# containers (aliasing): a value handed out by a cache / memo must be immutable or copied on the
+# way out -- every place that could violate that is listed and pinned.
+
+ALIAS_FILES = ["value.py", "type_object.py", "signature.py", "typevar.py", "arg_spec.py", "checker.py"]
+FRESH_CALLS = {"list", "dict", "set", "tuple", "sorted", "frozenset", "defaultdict", "OrderedDict", "copy", "deepcopy", "replace"}
+
+
+def _is_fresh_expr(e):
+    """syntactically a newly built object"""
+    if isinstance(e, (ast.Dict, ast.List, ast.Set, ast.Tuple, ast.ListComp, ast.DictComp, ast.SetComp, ast.GeneratorExp,
+                      ast.Constant, ast.JoinedStr)):
+        return True
+    if isinstance(e, ast.Call) and _name(e.func) in FRESH_CALLS:
+        return True
+    if isinstance(e, ast.BinOp):
+        return True
+    if isinstance(e, ast.Starred):
+        return _is_fresh_expr(e.value)
+    return False
+
+
+def mutation_sites(repo: str):
+    base = Path(repo) / "pyanalyze"
+    rows = []
+    for fname in ALIAS_FILES:
+        tree = ast.parse((base / fname).read_text())
+        parents = {}
+        for n in ast.walk(tree):
+            for c in ast.iter_child_nodes(n):
+                parents[c] = n
+
+        def qual(node):
+            names = []
+            n = node
+            while n in parents:
+                n = parents[n]
+                if isinstance(n, (ast.FunctionDef, ast.AsyncFunctionDef, ast.ClassDef)):
+                    names.append(n.name)
+            return ".".join(reversed(names)) or "<module>"
+
+        for fn in ast.walk(tree):
+            if not isinstance(fn, (ast.FunctionDef, ast.AsyncFunctionDef)):
+                continue
+            # locals that are only ever bound to fresh objects
+            bound = {}
+            for n in ast.walk(fn):
+                if isinstance(n, ast.Assign):
+                    for t in n.targets:
+                        if isinstance(t, ast.Name):
+                            bound.setdefault(t.id, []).append(_is_fresh_expr(n.value))
+                elif isinstance(n, ast.AnnAssign) and isinstance(n.target, ast.Name) and n.value is not None:
+                    bound.setdefault(n.target.id, []).append(_is_fresh_expr(n.value))
+                elif isinstance(n, (ast.For, ast.comprehension)):
+                    for t in ast.walk(n.target):
+                        if isinstance(t, ast.Name):
+                            bound.setdefault(t.id, []).append(False)
+            fresh_locals = {k for k, v in bound.items() if v and all(v)}
+
+            def non_fresh(e):
+                """may refer to an object that exists outside this function"""
+                if _is_fresh_expr(e):
+                    return False
+                if isinstance(e, ast.Name):
+                    return e.id not in fresh_locals
+                if isinstance(e, ast.IfExp):
+                    return non_fresh(e.body) or non_fresh(e.orelse)
+                return True  # attribute, subscript, call result ...
+
+            for n in ast.walk(fn):
+                owner = n
+                while owner in parents and not isinstance(parents[owner], (ast.FunctionDef, ast.AsyncFunctionDef)):
+                    owner = parents[owner]
+                if parents.get(owner) is not fn:
+                    continue  # belongs to a nested function: listed there
+                # in-place mutation through a method
+                if isinstance(n, ast.Call) and isinstance(n.func, ast.Attribute) and n.func.attr in MUTATORS | {"setdefault"}:
+                    recv = n.func.value
+                    if isinstance(recv, ast.Name) and recv.id in fresh_locals:
+                        continue
+                    if isinstance(recv, ast.Name) and recv.id == "self":
+                        continue
+                    rows.append((fname, qual(n), "mutate", ast.unparse(recv), n.func.attr))
+                # subscript store / delete / augmented assignment on a non-fresh object
+                elif isinstance(n, ast.Subscript) and isinstance(n.ctx, (ast.Store, ast.Del)):
+                    recv = n.value
+                    if isinstance(recv, ast.Name) and recv.id in fresh_locals:
+                        # storing a non-fresh object into a fresh container creates an alias
+                        p_ = parents.get(n)
+                        if isinstance(p_, ast.Assign) and non_fresh(p_.value) and not isinstance(p_.value, (ast.Call, ast.Attribute, ast.Subscript)):
+                            rows.append((fname, qual(n), "alias-store", ast.unparse(n), ast.unparse(p_.value)))
+                        continue
+                    rows.append((fname, qual(n), "mutate", ast.unparse(recv), "[]=" if isinstance(n.ctx, ast.Store) else "del[]"))
+                elif isinstance(n, ast.AugAssign) and not isinstance(n.target, ast.Name):
+                    rows.append((fname, qual(n), "mutate", ast.unparse(n.target), "augassign"))
+    return sorted(set(rows))
+
+
 def _cq(s):
     s = s.replace("\n", " ")
     if any(ord(ch) > 126 or ord(ch) < 32 for ch in s):
@@ -354,6 +453,8 @@ def translate(repo: str) -> str:
         "From Coq Require Import String List.\nRequire Import PV.Det.StateAudit.\nImport ListNotations.\nOpen Scope string_scope.\n\n"
         "Definition state_items : list state_item := [\n" + ";\n".join(rows) + "\n]%list.\n\n"
         "Definition cache_keys : list cache_key := [\n" + ";\n".join(krows) + "\n]%list.\n\n"
+        "Definition mutation_sites : list cache_key := [\n"
+        + ";\n".join(f"  CacheKey {_cq(a)} {_cq(b)} {_cq(c)} {_cq(d)} {_cq(e)}" for a, b, c, d, e in mutation_sites(repo)) + "\n]%list.\n\n"
         "Definition resolution_key_fields : list (string * string) := ["
         + "; ".join(f"({_cq(f)}, {_cq(st)})" for f, st in resolution_key_fields(repo)) + "]%list.\n"
     )
